@@ -131,6 +131,9 @@ func runC11(c *core.Ctx) {
 	runR112(c)
 	// ---- R11.3
 	parserReturnPairs(c, "R11.3")
+	c.Share(map[string]string{"R12.1": "R11.7"}, runC12) // a panic provoked by one client's input must not leave a key locked for the others
+	c.Rule("R11.8", "a ring lookup in cluster mode stays inside the ring (shared with C19): an index one past the end panics on the goroutine of a multi-key get and ends the process for every connection", 1)
+	runR199(c, "R11.8")
 	c.Rule("R11.6", "no spin inside a parser: every uncounted loop of the request parsers that reads from the client stream is left when the read fails (a test for bufio.ErrBufferFull excepted)", 4)
 	checkParserLoopsLeaveOnError(c, "R11.6")
 	c.Rule("R11.5", "a request header is released to its pool by one owner only, on error paths too: otherwise one client's malformed or truncated input corrupts the header another connection is decoding", 2)
